@@ -140,7 +140,8 @@ def run(module, cfg_text, env=None, workers=1, timeout=600, simulate=None, depth
         cfg = os.path.join(work, module + ".cfg")
         with open(cfg, "w") as f:
             f.write(cfg_text)
-        jopts = ["-XX:+UseParallelGC", "-Xmx" + heap, "-Xss64m"]
+        # TLC unpacks its standard modules into java.io.tmpdir: keep that inside the work directory so that it is removed with it
+        jopts = ["-XX:+UseParallelGC", "-Xmx" + heap, "-Xss64m", "-Djava.io.tmpdir=" + work]
         if dfs:
             jopts.append("-Dtlc2.tool.queue.IStateQueue=StateDeque")
         cmd = _tlc_cmd(jopts)
